@@ -281,11 +281,51 @@ def u6(ctx, rid):
         ctx.ok(rid, key, f.where(), 'every ok-return is dominated by the exhaustion of the closed-blob stream')
 
 
+def u7(ctx, rid):
+    """`read_with(meta)`: "else Deleted if the list ends in a marker" - the Deleted answer of the per-blob meta lookup is taken
+    from the marker-terminated list the candidates come from (get_all_with_deletion_marker), not from a different index query"""
+    prog = ctx.prog
+    n = 0
+    PASS = ('last', 'filter', 'map', 'pop', 'first', 'get', 'iter', 'next', 'next_back', 'rev', 'find', 'and_then', 'cloned', 'copied', 'as_ref',
+            'deref', 'deref_mut', 'new', 'timestamp', 'then', 'then_some', 'take', 'last_mut', 'as_slice', 'split_last', 'into_iter', 'unwrap_or', 'or')
+    for f in prog.fns.values():
+        if not f.id.endswith('Blob::<K>::get_entry_with_meta::{closure#0}'):
+            continue
+        for i, b in enumerate(f.blocks):
+            if b['c'] or i not in f.reachable():
+                continue
+            for st in b['s']:
+                if st['k'] != 'a' or st['r']['k'] != 'agg' or st['r'].get('variant') != 'Deleted' or not st['r'].get('adt', '').endswith('ReadResult'):
+                    continue
+                n += 1
+                key = 'deleted-from-marker-list|%s' % prog.fns[f.id].root
+
+                def is_query(c):
+                    return (c.trait or '').endswith('IndexTrait') or 'blob::index::' in c.path or any('blob::index::' in t for t in prog.resolve(c))
+
+                def ext(c):
+                    # every call that is not an index query is looked through (helpers, adaptors): only queries are terminals
+                    if is_query(c) or c.name == 'poll':
+                        return None
+                    return tuple(range(len(c.args))) or None
+                ogs = core.origins(f, st['r']['ops'][0], extra_transparent=ext)
+                calls = [o.data for o in ogs if o.kind == 'call' and is_query(o.data)]
+                good = [c for c in calls if c.name == 'get_all_with_deletion_marker']
+                other = [c for c in calls if c.name != 'get_all_with_deletion_marker']
+                if good and not other:
+                    ctx.ok(rid, key, f.where(i), 'the Deleted timestamp comes from the list returned by get_all_with_deletion_marker')
+                else:
+                    ctx.bad(rid, key, f.where(i), 'the Deleted answer of the meta lookup is derived from `%s`, not from the marker-terminated list: a deletion older than newer non-matching records is answered differently (NotFound instead of Deleted or vice versa)' % (other[0].name if other else 'no list'))
+    if n < 1:
+        raise core.AnchorLost('Deleted results in get_entry_with_meta: %d' % n)
+
+
 RULES = [
     Rule('C02.U1', 'the append in the write path is dominated by the duplicate policy branch; a found duplicate is acknowledged without storing', u1, 1),
     Rule('C02.U2', 'closed blobs are only ever marked with only_if_presented = true', u2, 2),
     Rule('C02.U3', 'version lists are merged with a stable sort', u3, 1),
     Rule('C02.U4', 'a deletion marker is appended only unconditionally or when the blob\'s latest record is live', u4, 1),
     Rule('C02.U5', 'version lists are cut immediately after the first deletion marker (per blob and across blobs)', u5, 2),
+    Rule('C02.U7', 'the Deleted answer of the per-blob meta lookup is taken from the marker-terminated version list', u7, 1),
     Rule('C02.U6', 'the point lookup consults every candidate closed blob before it returns Ok', u6, 1),
 ]
